@@ -32,8 +32,8 @@ QWidget {{
 VARIANTS = [("value", "ret"), ("value", "completion"), ("value", "bare"), ("void", None)]
 
 
-def make_doc(skeleton, context, wrapper):
-    r = progs.Renderer(context, wrapper or "ret")
+def make_doc(skeleton, context, wrapper, label_style="const"):
+    r = progs.Renderer(context, wrapper or "ret", label_style)
     text, _ast = r.program(skeleton)
     name = "ri" if context == "value" else "onFired"
     return DOC.format(binding=f"{name}: {text}")
@@ -113,6 +113,21 @@ def judge(t, vd, cid, src, meta):
         raise vc.MachineryError(f"cannot parse an emitted body ({e}); header:\n{g['header'][:3000]}")
 
 
+def has_two_case_switch(s):
+    tag = s[0]
+    if tag == "SW":
+        if sum(1 for lab, _b in s[1] if lab == "c") >= 2:
+            return True
+        return any(has_two_case_switch(x) for _l, b in s[1] for x in b)
+    if tag in ("BL", "SH"):
+        return any(has_two_case_switch(x) for x in s[1])
+    if tag == "I":
+        return any(has_two_case_switch(x) for x in s[2])
+    if tag == "IE":
+        return any(has_two_case_switch(x) for x in s[2] + s[3])
+    return False
+
+
 def shard_work(shard, nshards, payload):
     tier = payload["tier"]
     vd = vc.worker_vdrive()
@@ -144,6 +159,16 @@ def shard_work(shard, nshards, payload):
                 judge(t, vd, f"deep+tail/{k}", make_doc(sk2, "value", "bare"),
                       {"context": "value", "wrapper": "bare", "skeleton": repr(sk2)})
             k += 1
+    # case labels that span several basic blocks (?:, &&, ||), in every clause position
+    for sk in progs.skeletons(kmax, conds=("c",)):
+        if not any(has_two_case_switch(x) for x in sk):
+            continue
+        for style in ("ternary", "and", "or"):
+            for ctx, wr in (("value", "ret"), ("void", None)):
+                if k % nshards == shard:
+                    judge(t, vd, f"labels/{k}", make_doc(sk, ctx, wr, style),
+                          {"context": ctx, "wrapper": wr, "labels": style, "skeleton": repr(sk)})
+                k += 1
     for i, (ctx, b) in enumerate(EXTRA):
         if i % nshards == shard:
             judge(t, vd, f"extra/{i}", DOC.format(binding=b), {"context": ctx, "extra": b})
